@@ -16,7 +16,7 @@ func (s *scC03) Configure(w *World) {
 	c.ItemKinds = []string{"mut", "del", "exp", "sys:collcreate", "sys:colldelete", "sys:collflush", "sys:scopecreate", "sys:scopedelete", "sys:collchanged"}
 	c.ItemKindW = []int{8, 3, 2, 1, 1, 1, 1, 1, 1}
 	c.KeyClasses = keyClasses
-	c.KeyClassW = []int{6, 1, 2, 2, 2, 1, 1, 1}
+	c.KeyClassW = []int{6, 1, 2, 2, 2, 1, 1, 1, 2}
 	switch t.Draw(3, nil) {
 	case 0: // no collection configuration: everything is streamed, every name is _default
 		c.Collections = []uint32{0, 8, 9}
